@@ -48,6 +48,8 @@ def wl_history(ctx, rng, case):
                 # aim at the boundary: re-add known keys often, force sometimes
                 key = rng.choice(keys)
                 force = rng.random() < 0.2
+                if force and rng.random() < 0.3:
+                    force = 1  # a truthy flag that is not the object True (the result of `flags & 1`, a numpy bool, ...)
                 present = f.check(key)
                 eff = force or not present
                 _, _, bits_before = stream_state(f) if (present and not force) else (None, None, None)
